@@ -35,6 +35,16 @@ def u(e):
     return " ".join(unparse(e).split())
 
 
+_STR_CONSTS = {}     # name -> str: module-level string constants visible in the function being analysed
+
+
+def _as_const(node):
+    """a Name bound once at module level to a string literal counts as that literal"""
+    if isinstance(node, ast.Name) and node.id in _STR_CONSTS:
+        return ast.Constant(value=_STR_CONSTS[node.id])
+    return node
+
+
 def facts_of_test(e, pos):
     """facts implied by expression e being true (pos) / false (not pos)"""
     out = set()
@@ -49,7 +59,7 @@ def facts_of_test(e, pos):
                 out |= facts_of_test(v, False)
         return out
     if isinstance(e, ast.Compare) and len(e.ops) == 1:
-        l, op, r = e.left, e.ops[0], e.comparators[0]
+        l, op, r = _as_const(e.left), e.ops[0], _as_const(e.comparators[0])
         lt, rt = u(l), u(r)
         isnone_r = isinstance(r, ast.Constant) and r.value is None
         if isinstance(op, (ast.Is, ast.IsNot)) and isnone_r:
@@ -288,7 +298,29 @@ class GuardFlow(Forward):
         return state
 
 
+def module_str_consts(func):
+    """module-level names of func's module assigned exactly once, to a string literal, and not shadowed in func"""
+    out = {}
+    rebound = set()
+    for d in func.module.defs.values():
+        for g in ([d] if hasattr(d, "declared_global") else list(getattr(d, "methods", {}).values())):
+            rebound |= set(getattr(g, "declared_global", ()))
+    for name, stmts in func.module.assigned.items():
+        if name in rebound:
+            continue
+        if len(stmts) == 1 and isinstance(stmts[0], ast.Assign) and isinstance(stmts[0].value, ast.Constant) \
+                and isinstance(stmts[0].value.value, str) and name not in func.locals:
+            out[name] = stmts[0].value.value
+    return out
+
+
 def guard_facts(func, noreturn=None, entry=frozenset()):
-    g = GuardFlow(func, noreturn)
-    g.run(frozenset(entry))
+    global _STR_CONSTS
+    saved = _STR_CONSTS
+    _STR_CONSTS = module_str_consts(func)
+    try:
+        g = GuardFlow(func, noreturn)
+        g.run(frozenset(entry))
+    finally:
+        _STR_CONSTS = saved
     return g.at
